@@ -20,8 +20,8 @@ def cb(v):
     return '[' + '; '.join('true' if b else 'false' for b in v) + ']'
 
 
-def gen_cloud(rng):
-    kind = str(rng.choice(['lattice', 'lattice_noise', 'two_lattices', 'random', 'small_exact', 'tight_limits']))
+def gen_cloud(rng, kind=None):
+    kind = kind or str(rng.choice(['lattice', 'lattice_noise', 'two_lattices', 'random', 'small_exact', 'tight_limits', 'limit_edge']))
     la, lb = rng.uniform(18, 35, 2)
     ang = rng.uniform(0, np.pi)
     d = np.deg2rad(rng.uniform(60, 120))
@@ -38,11 +38,11 @@ def gen_cloud(rng):
         pts = zero + idx @ np.array([a, b])
         w = np.ones(len(pts))
         true = [tuple(ij) for ij in idx]
-    elif kind in ('lattice', 'lattice_noise', 'tight_limits'):
+    elif kind in ('lattice', 'lattice_noise', 'tight_limits', 'limit_edge'):
         n = int(rng.integers(5, 18))
         idx = np.vstack([[0, 0], cand[rng.permutation(len(cand))[:n - 1]]])
         pts = zero + idx @ np.array([a, b])
-        if kind == 'lattice_noise':
+        if kind in ('lattice_noise', 'limit_edge'):
             pts = pts + rng.normal(0, 0.3, size=pts.shape)
             pts[0] = zero
         no = int(rng.integers(0, 5))
@@ -66,6 +66,13 @@ def gen_cloud(rng):
         true = None
     params = dict(tolerance=float(rng.choice([1.0, 3.0])), min_weight=0.1, min_match=int(rng.choice([3, 3, 4])), min_angle=float(rng.choice([np.pi / 10, np.pi / 5])),
                   min_points=int(rng.choice([10, 5])), min_delta=float(rng.choice([0.0, 5.0, 15.0])), max_delta=float(rng.choice([np.inf, 60.0, 40.0])))
+    if kind == 'limit_edge':
+        # a length limit within 1 % of a lattice constant, noisy positions: the fitted vector can drift over the limit
+        edge = float(rng.choice([la, lb]) * (1 + rng.uniform(-0.012, 0.012)))
+        if rng.integers(0, 2):
+            params.update(max_delta=edge, min_delta=0.0, tolerance=1.5)
+        else:
+            params.update(min_delta=edge, max_delta=np.inf, tolerance=1.5)
     if kind == 'tight_limits':
         # length limits that exclude every (or almost every) connecting vector, more points than min_points
         params.update(min_points=5, max_delta=float(rng.choice([0.4, 0.9, 1.1]) * min(la, lb)), min_delta=float(rng.choice([0.0, 3.0])))
@@ -243,6 +250,13 @@ def run(ctx):
             if 'cross' in fail:
                 sig = 'full_match raises ValueError from np.cross on 2-vectors'
             ctx.violation('input', fail, mk_replay(c, fail), signature=sig)
+            break
+    for k in range(ctx.n(250, 2500)):
+        c = gen_cloud(rng, 'limit_edge')
+        fail = stmt_failure(c)
+        ctx.count(1)
+        if fail:
+            ctx.violation('input', fail, mk_replay(c, fail))
             break
     ctx.assumptions.append('hdbscan is not installed: harness/stubs/hdbscan provides a deterministic sklearn-style stand-in clusterer (single linkage, fixed threshold), as the property allows')
     return ctx.finish(
